@@ -27,6 +27,7 @@ out (LockTimeout) so the process always exits.
 """
 import itertools
 import json
+import logging
 import sys
 import threading
 import time
@@ -34,6 +35,8 @@ import traceback
 from contextlib import contextmanager
 
 from harness.core import PropSpec, Result, Violation, Ctx, run_model, REPO
+
+logging.disable(logging.CRITICAL)      # bobocep logs every scripted send failure
 
 ORIG_RLOCK = threading.RLock
 ORIG_LOCK = threading.Lock
@@ -316,7 +319,7 @@ class System:
                 self.rec.hooks[me] = old
             d._thread_closed = False
 
-    def incoming_client(self, msg_type, flags, payload, chunk=64):
+    def incoming_client(self, msg_type, flags, payload, chunk=1 << 16):
         d = self.dist
         data = d._crypto.encrypt("{} {} {} {} {}".format('urn_b', 'key_b', msg_type, flags, payload))
         d._tcp_incoming_handle_client(FakeSocket(data, chunk), '127.0.0.9', int(time.time()))
@@ -382,7 +385,7 @@ def _ops():
                                lambda s, p: s.outgoing_pass()),
         'outgoing_ping':    ('dist_outgoing', lambda s: setattr(s, 'now', 1000 + 40), lambda s, p: s.outgoing_pass()),
         'incoming_sync':    ('dist_incoming', lambda s: None, lambda s, p: s.incoming_client(0, 1, p['updated'])),
-        'incoming_ping':    ('dist_incoming', lambda s: None, lambda s, p: s.incoming_client(1, 0, '{}', chunk=2048)),
+        'incoming_ping':    ('dist_incoming', lambda s: None, lambda s, p: s.incoming_client(1, 0, '{}')),
         'controller_observe': ('controller', lambda s: (s.feed(1), s.engine.update()), lambda s, p: (
             s.dist.size_incoming(), s.dist.size_outgoing(), s.dist.is_closed(), s.engine.decider.all_runs(),
             s.engine.decider.snapshot(), s.engine.decider.runs_from('ph', 'p'), s.engine.decider.size(),
